@@ -196,6 +196,11 @@ def check(run, model, tier):
             selfn, inst, val = f.params[0], f.params[1], f.params[2]
             stores = [n for n in g.nodes if n.kind == 'stmt' and isinstance(n.ast, ast.Assign)
                       and any(isinstance(y, ast.Name) and y.id == val for y in ast.walk(n.ast.value))]
+            # ... or the value handed to setattr / a storing method of the instance's namespace
+            stores += [n for n in g.nodes if n.kind == 'stmt' and isinstance(n.ast, ast.Expr) and isinstance(n.ast.value, ast.Call)
+                       and ((isinstance(n.ast.value.func, ast.Name) and n.ast.value.func.id == 'setattr') or
+                            (isinstance(n.ast.value.func, ast.Attribute) and n.ast.value.func.attr in ('__setitem__', 'update', 'setdefault', '__setattr__')))
+                       and any(isinstance(y, ast.Name) and y.id == val for a_ in list(n.ast.value.args) + [k_.value for k_ in n.ast.value.keywords] for y in ast.walk(a_))]
             run.floor('value store in __set__', len(stores), 1)
             for s in stores:
                 ok = all(g.postdominates(r, s) for r in rel) and len(rel) >= 1 and any(g.postdominates(r, s) for r in rel)
@@ -237,6 +242,20 @@ def check(run, model, tier):
                 classifier = cls.methods[inner.func.attr]
     if classifier is None:
         raise AnalysisError('__get__: no classifier test decides the release of the lock')
+    # ... and only if the text of the line can be had at all: inspect.getframeinfo finds it through the module's loader (zip archives, frozen apps, custom importers);
+    # linecache.getline(file, line) without the module's globals only reads plain files and answers '' otherwise - `obj.x += 1` is then classified as a plain read
+    from props.c28 import line_sources
+    cargs_, srcs_, scalls_ = line_sources(get, gg, classifier)
+    for c_ in scalls_:
+        fn_ = norm(c_.func).split('.')[-1]
+        if fn_ in ('getline', 'getlines'):
+            need = 3 if fn_ == 'getline' else 2
+            has_globals = len(c_.args) >= need or any(k_.arg == 'module_globals' for k_ in c_.keywords)
+            run.inst('LOCKSET.update-recognised', get, 'the classified text is available for every module: ' + norm(c_)[:60], has_globals,
+                     '' if has_globals else ('the line that decides "keep the lock" is fetched with %s without the calling module\'s globals: for a module that is not a plain .py file on '
+                                             'disk (imported from a zip archive, a zipapp, through a custom loader) it answers the empty string, `obj.attr += 1` is classified as a plain '
+                                             'read, the lock is released between its read half and its write half and a concurrent update is lost' % norm(c_.func)),
+                     node=c_, obligation=True)
     AUG = ['+=', '-=', '*=', '/=', '//=', '%=', '@=', '&=', '|=', '^=', '>>=', '<<=', '**=']
     re_obj = pureeval.Obj(search=_re.search, match=_re.match, fullmatch=_re.fullmatch, findall=_re.findall, compile=_re.compile)
     cmeths = {k_: f_.node for k_, f_ in cls.methods.items() if not (k_.startswith('__') and k_.endswith('__'))}
